@@ -131,6 +131,7 @@ template< class T> template< class... Args>
          CELMA_VERIF_SYNC( "singleton.construct");
          mpObject.reset( new T( std::forward< Args>( args)...));
          obj = mpObject.get();
+         CELMA_VERIF_SYNC( "singleton.store");
          mpInstance.store( obj, std::memory_order_release);
       } // end if
       CELMA_VERIF_SYNC( "singleton.unlock");
